@@ -42,7 +42,7 @@ def main():
             files = [f for f in files.split() if f.endswith(".go")]
             pkgs = sorted({"./" + os.path.dirname(f) + "/..." for f in files})
             res["confirmed"]["files"] = files
-            rc, o = sh("go build ./... ", cwd=wt, timeout=3000)
+            rc, o = sh("go build ./pkg/... ./cmd/... ", cwd=wt, timeout=3000)
             res["confirmed"]["builds"] = rc == 0
             t0 = time.time()
             rc, o = sh("go test -count=1 -vet=off %s 2>&1 | tail -30" % " ".join(pkgs), cwd=wt, timeout=3000)
